@@ -449,3 +449,20 @@ SEEDED["C19"] += [
     (SC, _SFM, "numpy.sum((phase[0:-i, :] - phase[i:, :])**2) / ((phase.shape[1] - i) * phase.shape[1])", "T1"),
     (SC, _SFM, "numpy.sum((phase[0:-i, :] - phase[i:, :])**2) / phase.size", "T1"),
 ]
+
+# C09: shifts written as rolls (parity analysis of the roll amount)
+_IFT_OLD = "    DATA = numpy.fft.fftshift(\n            numpy.fft.ifft(\n                    numpy.fft.ifftshift(data, axes=(-1))),\n            axes=(-1)) * data.shape[-1] * delta_f"
+BENIGN["C09"] += [
+    (FT, _IFT_OLD, "    N = data.shape[-1]\n    DATA = numpy.roll(numpy.fft.ifft(numpy.roll(data, -(N//2), axis=-1)), N//2, axis=-1) * N * delta_f"),
+    (FT, _IFT_OLD, "    N = data.shape[-1]\n    DATA = numpy.roll(numpy.fft.ifft(numpy.roll(data, (N+1)//2, axis=-1)), int(N/2), axis=-1) * N * delta_f"),
+]
+SEEDED["C09"] += [
+    (FT, _IFT_OLD, "    N = data.shape[-1]\n    DATA = numpy.roll(numpy.fft.ifft(numpy.roll(data, N//2, axis=-1)), N//2, axis=-1) * N * delta_f", "R4"),
+    (FT, _IFT_OLD, "    N = data.shape[-1]\n    DATA = numpy.roll(numpy.fft.ifft(numpy.roll(data, -N//2, axis=-1)), N//2, axis=-1) * N * delta_f", "R4"),
+    (FT, _IFT_OLD, "    N = data.shape[-1]\n    DATA = numpy.roll(numpy.fft.ifft(numpy.roll(data, -(N//2), axis=-1)), N//2) * N * delta_f", "R"),
+]
+
+# C04/C06: which generator draws the initial screen
+_MIS = "self.r0, self.stencil_length, self.pixel_scale, self.L0, 1e-10, seed=self._R\n"
+SEEDED["C04"] += [(IPS, _MIS, "self.r0, self.stencil_length, self.pixel_scale, self.L0, 1e-10, seed=self.random_seed\n", "K14")]
+BENIGN["C04"] += [(IPS, "        self._scrn = phasescreen.ft_phase_screen(\n            " + _MIS, "        gen = self._R\n        self._scrn = phasescreen.ft_phase_screen(\n            self.r0, self.stencil_length, self.pixel_scale, self.L0, 1e-10, seed=gen\n")]
